@@ -93,6 +93,13 @@ def replayMix (j : Json) : R Verdict := do
       let w := s!"C17: recombining {ps.length} parents with different variant alternatives (selection pressure class {repr sp}) took the first parent's alternative in all {outs.length} attempts"
       return { case, kind := "PROPFAIL", props := ["C17"], what := w, tags := tags2, size := outs.length, fails := [w], dis := dis.getD "" }
     return { case, kind := if dis.isSome then "DISAGREE" else "ok", what := dis.getD "", tags := tags2, size := outs.length, dis := dis.getD "" }
+  if (fieldD j "sharedLeaves").getBool?.toOption == some true then
+    -- three parents sharing leaf values pairwise: below pressure 1 the offspring is not always the first parent
+    let tags2 := "mix:shared-leaves" :: tags
+    if sp != .one && outs.all (fun o => some o == ps.head?) then
+      let w := s!"C17: recombining three parents that share leaf values pairwise (selection pressure class {repr sp}) returned the first parent in all {outs.length} attempts"
+      return { case, kind := "PROPFAIL", props := ["C17"], what := w, tags := tags2, size := outs.length, fails := [w], dis := dis.getD "" }
+    return { case, kind := if dis.isSome then "DISAGREE" else "ok", what := dis.getD "", tags := tags2, size := outs.length, dis := dis.getD "" }
   if ps.length ≥ 2 && mixed.isEmpty then
     let w := s!"C17: recombining {ps.length} parents that differ at every position with crossover probability 1 gave a copy of a parent in all {outs.length} attempts"
     return { case, kind := "PROPFAIL", props := ["C17"], what := w, tags, size := outs.length, fails := [w] }
